@@ -131,6 +131,13 @@ def programs(seed, n, syms=gen.SYMS, kinds=("abelian", "fermionic"), tids=None, 
                             phases=0.4 if kind == "fermionic" else 0.0, oddpos=rng.randint(11, 19), start=1)
         inputs["x0"] = x0
         solve_steps(rng, steps, kind)
+        # the zero matrix (no stored block) and a zero vector: norm 0
+        zm = dict(inputs["h"], drop=list(range(len(gen.D.valid_sectors(sym, inputs["h"]["ix"], tuple(inputs["h"]["charge"]))))))
+        zm.pop("phases", None)
+        inputs["zm"] = zm
+        for ent in ("method", "symmray", "autoray"):
+            steps.append({"op": "norm_sq", "in": ["zm"], "out": [f"nz_{ent[0]}"], "args": {}, "entry": ent})
+        steps.append({"op": "norm", "in": ["zm"], "out": ["nzn"], "args": {}})
         progs.append({"tid": tids(), "inputs": inputs, "steps": steps})
     return progs
 
